@@ -26,6 +26,12 @@ CHECKS = {
             "composition-keyword order that the translator reads from /repo on every run; the model parser is tied to the code by running both on planted schemas; "
             "recursive documents are exercised through the real main() (materialize and the recursion limit are runtime).",
             "full for keywords (safety half proved; the error kind is checked by correspondence and the planting oracle); cycles partial"),
+    "C16": ("Coq theorems by induction over registration/check histories (last registration wins; checks are reads) + element-level verdict theorems + vm_compute correspondence of random histories",
+            "The registry state machine (Format.v) is proved, for every history and initial registry, to answer a check with the most recently registered "
+            "checker, to accept-and-warn on unregistered names and to ignore non-strings; String(format=n)/Element(format=n) verdicts are proved for every "
+            "oracle and value; the model is tied to the code by replaying random histories with recording checkers on both sides and by the generated Format "
+            "validator row.  The built-in uuid/date-time acceptance claim is about uuid.UUID and dateutil (third-party, not modelled): enumerated as a test.",
+            "registry full; built-ins partial (test only; finding C16-K7 recorded)"),
 }
 
 REASONS_PENDING = "check under construction in this session: not yet claimed"
